@@ -427,6 +427,14 @@ pub fn describe(q: &Query, t: &Table, layout: &Layout) -> String {
 /// query is minimised and the bucket is `<failure>|<shape of the minimal failing query>`.
 pub fn outcome_attributed(table: &Table, layout: &Layout, q: &Query, j: &Judged, cache: &mut Option<Db>, extra_why: &str) -> Outcome {
     let mut o = outcome(table, q, j, extra_why);
+    // a failure while building the database (ingestion / flush / compaction) does not depend on the
+    // query: no minimisation (every attempt would rebuild and, for a hanging flush, wait again)
+    if let QOut::Panic(sites) = &j.out {
+        if sites.first().map_or(false, |s| s.starts_with("build")) {
+            o.signature = Some(format!("build-failure:{}", crate::db::skeleton(&sites[0])));
+            return o;
+        }
+    }
     if j.verdict.is_err() {
         let (mq, mj) = minimize(table, layout, q, j, cache, 30);
         let reason = mj.verdict.as_ref().err().cloned().unwrap_or_default();
